@@ -227,6 +227,28 @@ def check_method(ctx, world, wd, mname, kind, attr, nested, params, receiver):
             ctx.fail(f"positional_by_keyword|{kind}|result_differs", test, f"{mname} gives a different result when positional parameters are passed by keyword")
             return False
         ctx.case(test, nontrivial_method)
+    # (3a) constructor: "defaults are as shown" - omitting an attribute keyword builds what passing its advertised default builds
+    # (only where the constructor was generated for the instance class itself: a plain subclass inherits its parent's function,
+    # whose one signature cannot show the subclass's re-defaults)
+    if kind == "init" and world.class_desc(world.desc["instance_class"])["kind"] == "spec":
+        from spec_classes.types import MISSING as _M
+
+        for p in virtual:
+            dv = p.default
+            if dv is inspect.Parameter.empty or dv is _M or not isinstance(dv, (bool, int, str, float, type(None))):
+                continue
+            base = {k: v for k, v in populated_kwargs(world).items() if k != p.name}
+            oa, va = ops.execute(world, None, {"t": "new", "k": base})
+            ob, vb = ops.execute(world, None, {"t": "new", "k": dict(base, **{p.name: dv})})
+            test = dict(case0, test=f"init_default:{p.name}")
+            if oa != "ok" or ob != "ok":
+                ctx.count("init_default:not_constructible")
+                continue
+            if not same_state(va, vb):
+                ctx.fail(f"default_differs|init|{'inherited' if p.name not in [a['name'] for a in world.class_desc(world.desc['instance_class'])['attrs']] else 'own'}", test,
+                         f"{mname} advertises {p.name}={dv!r}; omitting the keyword builds {getattr(va, p.name, '<unset>')!r}, passing {dv!r} builds {getattr(vb, p.name, '<unset>')!r}")
+                return False
+            ctx.case(test, True)
     # (3) omitted == advertised default, for non-virtual parameters with defaults
     for p in params:
         if p.default is inspect.Parameter.empty or p in virtual or p.kind is inspect.Parameter.VAR_KEYWORD or p.name in kwargs:
@@ -484,6 +506,11 @@ def world_strategy(draw):
                 anc.append(c)
         if anc and by_name[wd["instance_class"]]["kind"] == "spec":  # (a plain instance class would merely inherit an older constructor)
             src.pick(anc)["opts"]["init"] = False
+    if wd["instance_class"] == "Q" and src.chance(1, 2):
+        # a decorated class below the undecorated one (which may re-default inherited attributes): its constructor is generated
+        # for it, and advertises the defaults in force for it
+        wd["classes"].append({"name": "R2", "kind": "spec", "bases": ["Q"], "opts": {}, "attrs": []})
+        wd["instance_class"] = "R2"
     return wd
 
 
